@@ -119,7 +119,7 @@ static std::string dump_topology(hwloc_topology_t t, unsigned what = DUMP_ALL) {
   if (what & DUMP_CONFIG) {
     o << "flags=" << hwloc_topology_get_flags(t) << " filters=";
     for (int ty = 0; ty < HWLOC_OBJ_TYPE_MAX; ty++) { enum hwloc_type_filter_e f; hwloc_topology_get_type_filter(t, (hwloc_obj_type_t)ty, &f); o << (int)f; }
-    o << " thissystem=" << hwloc_topology_is_thissystem(t) << " topo_userdata=" << ((what & DUMP_USERDATA) ? hwloc_topology_get_userdata(t) : (void *)0) << "\n";
+    o << " thissystem=" << hwloc_topology_is_thissystem(t) << "\n";  // (the topology-level userdata pointer is not part of any equality claim: hwloc_topology_dup() does not copy it)
   }
   if (what & DUMP_SUPPORT) {
     const struct hwloc_topology_support *s = hwloc_topology_get_support(t);
